@@ -79,6 +79,18 @@ CLAIMED = {
          "range (no precondition on sortedness). from_tzif ends in validate()? so nothing it returns violates tz_wf. NOT covered: panic-freedom "
          "of the byte/footer parser itself before that point (Cursor, Header, DataBlock, from_tz_string).",
     note=TB + "lookups are proved for timestamps whose UTC year is within +-5_879_500; that from_tzif calls validate on every Ok path is by reading its last statements (the function is outside Verus); Offset::resolve's fallback is outside (cfg(unix), fs).", ref="5 C19"),
+ 'C11': dict(
+    category='other', engine='kani',
+    technique='per-row loop-free Kani/CBMC harnesses over full-domain symbolic values on the real format_date_part / format_time_part, renderers and calendar getters replaced by recording stubs (-Z stubbing)',
+    text="Partial, by construction: for each numeric symbol (h H K k m s d w D y M q e X x) and each width 1..=10 one loop-free Kani harness "
+         "calls the real format_date_part / format_time_part with the concrete pattern part and full-domain symbolic time of day / day / "
+         "offset and asserts the symbol-table row: which field is rendered, at which width (incl. the fall-back for over-long runs), and for the "
+         "zone symbols which of hour/minute/second in which order. A loop-free harness over the full input domain is complete for its row. "
+         "Quick tier: 55 rows; thorough: all 125. Level 'other' because the rendered text itself is outside both verifiers here.",
+    note="NOT covered: the characters produced by zero_padded/format!, sign/colon/Q/ordinal glue, the English name tables (MMM.., eee.., a, b, G), "
+         "yy, qqq/qqqq, the sub-second n rows (CBMC does not finish), the tokenizer parse_format_string, quoting and the assembly in format(). "
+         "Trusted: Kani 0.68/CBMC 6.11; stubs for zero_padded, zero_padded_i, alloc::fmt::format (record value,width); days_to_date/doy/wday/wyear "
+         "replaced by arbitrary in-range values (their correctness is C01/C02); checks located in std/kani_lib.c are ignored (stub artefact).", ref="5 C11"),
  'C15': dict(
     text="Verus proves Ok iff valid and Err(OutOfRange) with value == offending argument outside [min,max] for validate_date/doy/time, "
          "time_to_day_seconds, tm::set_*, Time::from_hms/from_seconds/from_nanos, DateTime/Date::from_ymd(hms), all set_* on the three types, "
@@ -126,7 +138,8 @@ def main():
             'add_only': True,
         },
         'engines': [
-            {'name': 'verus', 'path': '/verif/check', 'serves_properties': sorted(CLAIMED), 'kind_free_text': 'deductive verifier (Verus 0.2026.09.13 / Z3) on functions extracted from /repo each run'},
+            {'name': 'verus', 'path': '/verif/check', 'serves_properties': sorted(k for k in CLAIMED if k != 'C11'), 'kind_free_text': 'deductive verifier (Verus 0.2026.09.13 / Z3) on functions extracted from /repo each run'},
+            {'name': 'kani', 'path': '/verif/tools/kani_engine.py', 'serves_properties': ['C11'], 'kind_free_text': 'Kani 0.68 / CBMC 6.11 loop-free harnesses injected into a scratch copy of /repo'},
         ],
         'checks': checks,
         'not_applicable': na,
